@@ -397,7 +397,13 @@ func (g *fastGenerator) fieldItem(field *protogen.Field, fieldname string, messa
 		if oneof {
 			buf := `dAtA[iNdEx:postIndex]`
 			msgname := g.noStarOrSliceType(field)
-			g.P(`v := &`, msgname, `{}`)
+			// a repeated occurrence of the member that is already set merges into it
+			g.P(`var v *`, msgname)
+			g.P(`if oneof, ok := x.`, fieldname, `.(*`, field.GoIdent, `); ok && oneof.`, field.GoName, ` != nil {`)
+			g.P(`v = oneof.`, field.GoName)
+			g.P(`} else {`)
+			g.P(`v = &`, msgname, `{}`)
+			g.P(`}`)
 			g.decodeMessage("v", buf, field.Message)
 			g.P(`x.`, fieldname, ` = &`, field.GoIdent, `{v}`)
 
